@@ -604,6 +604,8 @@ class Exec(ExprMixin, CallMixin):
     def for_loop(self, st, fr):
         it = self.ev(st.iter, fr)
         items = self.to_pylist(it) if not (isinstance(it, IterObj) and not isinstance(it.pos, int)) else None
+        if items is not None and isinstance(it, RangeObj) and self.loop_spec(st, fr)[0] is not None:
+            items = None        # a loop over a concrete range with a registered invariant is treated by the invariant
         if items is not None:
             broke = False
             for idx, x in enumerate(items):
